@@ -44,6 +44,12 @@ CHECKS = {
  'C11': ('model_checking', 'symbolic execution of clang LLVM IR of the 8 arc-cosine kernels and 40 quantity-level forms; z3 FP decides, over an abstracted cosine, that every path confines the acos argument to [-1,1]; z3 nlsat decides the cosine identity and, by homogeneity scaling, that no intermediate overflows/underflows in the property\'s range; bit-identity of quantity forms and symmetry',
          'On every path of every kernel acos receives 1, -1 or a cosine the path condition confines to [-1, 1], so the angle is a number in [0, pi]; the cosine is a.b/(|a||b|) over the reals (symmetric, length-independent); no intermediate overflows and nothing a divisor is made of underflows while the squared lengths are representable; Angle(a,b) = Angle(b,a); the quantity-level constructors and members are bit-identical to the kernels.',
          'acos contract (libm); inputs non-zero finite with representable squared lengths; agreement with atan2 to 1e-7 rad not decided; direction operands are unit vectors (C10)', '3 C11'),
+ 'C12': ('model_checking', 'symbolic execution of clang LLVM IR of the twenty modulus-pair constructors, the derived-modulus accessors and all 9 (model type x overload) instances of each stress/strain map; z3 nlsat decides agreement with the identities of isotropic elasticity over 0 <= nu < 1/2 (up to the rounding of the code\'s own constants) and definedness; rounding constants by solver-checked local lemmas; bit-identity through the abstract interface',
+         'Each constructor fed the pair O-formula gives for (mu, nu) stores (mu, lambda) for all mu > 0, 0 <= nu < 1/2, with nothing undefined; the five accessors satisfy E, K, M, nu identities; Stress = 2 mu eps + lambda tr(eps) I, Strain inverts it, rate arguments are ignored, zero maps return +0, in all three model types and all three overloads, directly and through const ConstitutiveModel&.',
+         'clang front-end shim for the three model headers (declared); standard rounding model; constructors that divide by a cancelling difference have no uniform rounding bound near nu -> 1/2 (declared in evidence notes); (lambda, nu) constructor assumes nu > 0', '3 C12'),
+ 'C13': ('model_checking', 'symbolic execution of clang LLVM IR of every overload of every virtual function of the two Newtonian fluid models in 9 (model type x overload) instances; z3 nlsat decides the closed-form linear maps and their inverse per component over the reals; rounding constants by solver-checked local lemmas; bit-identity through the abstract interface and of the ignored-argument forms',
+         'Stress(D) = 2 mu D (+ mu_b tr(D) I), StrainRate inverts it, StrainRate(Stress(D)) = D, strain arguments are ignored, strain-only forms give +0, the one-argument compressible constructor stores mu_b = +0; all for mu > 0, mu_b >= 0 and all real symmetric tensors, in float, double and long double models and overloads.',
+         'clang front-end shim (declared); standard rounding model; linearity is a consequence of the closed forms proved', '3 C13'),
 }
 NA = {}
 def main():
